@@ -54,11 +54,7 @@ def handle : List String → String
     match pver.toNat?, hexToList? d with
     | some pver, some d =>
       match PmtWire.decode pver d with
-      | .error .pver => "err:pver"
-      | .error .eof => "err:eof"
-      | .error .nonCanonical => "err:noncanon"
-      | .error .tooManyHashes => "err:toomanyhashes"
-      | .error .tooManyFlags => "err:toomanyflags"
+      | .error _ => "err"
       | .ok (m, rest) =>
         let re := match PmtWire.encode pver m with
           | .ok b => b ++ rest == d
